@@ -38,12 +38,13 @@ Lemma duplicate_paths_rejected_w :
   run [] world0 (mkcall [mkjob s_j1 pf_a6; mkjob s_j2 pf_a6]) = (Err ERuntimeError, (world0, 0%N)).
 Proof. vm_compute. auto. Qed.
 
-(* 4. STILL OPEN: the empty selection links an unselected job *)
-Lemma empty_selection_links_a_job :
-  let c := mkcall [] in
-  exists lk w n, run [] world0 c = (Ok lk, (w, n)) /\ c_jobs c = [] /\
-                 get w [s_v; s_job] = Some (Lnk (join_sep [s_dotdot; s_p; s_j2])).
-Proof. vm_compute. do 3 eexists. repeat split. Qed.
+(* 4. (cfcb328) the empty selection creates no link and no view directory; an existing view is emptied *)
+Lemma empty_selection_no_link :
+  run [] world0 (mkcall []) = (Ok [], (world0, 0%N)) /\
+  (let '(r1, (w1, _)) := run [] world0 (mkcall [mkjob s_j1 pf_a6; mkjob s_j2 [97%N; 47%N; 53%N]]) in
+   let '(r2, (w2, _)) := run [] w1 (mkcall []) in
+   is_ok r1 = true /\ r2 = Ok [] /\ get w1 [s_v; s_a] <> None /\ get w2 [s_v] = Some (Dir [])).
+Proof. vm_compute. repeat split; congruence. Qed.
 
 (* 5. (bfa6c64) absolute or climbing keys are rejected *)
 Definition pf_abs : str := [47%N; 120%N].                                         (* "/x" *)
